@@ -1,15 +1,17 @@
 """C19 — Blocked-reaction and consistency analyses agree with the true flux ranges."""
 from contracts import misc_small, c05_fva as C5  # noqa
 from contracts import c19_blocked as C19
+from contracts import c19_fastcc as CF
 from pyvc.contract import chain_hooks
 from props._generic import run_property, replay_with_driver
 
 LEVEL = "other"
 KEYS = ["normalize_cutoff", "_fva_step", "find_blocked_reactions"]
+FASTCC_KEYS = ["_find_sparse_mode", "_flip_coefficients", "Reaction.reversibility@getter", "fastcc"]
 
 
 def run(rep):
-    run_property(rep, KEYS, hooks=chain_hooks(C5.HOOKS, C19.HOOKS), explanation=(
+    run_property(rep, KEYS, hooks=chain_hooks(C5.HOOKS, C19.HOOKS), more=[(FASTCC_KEYS, CF.HOOKS)], lemmas=CF.lemmas, explanation=(
         "Deductive part: normalize_cutoff (the threshold both analyses compare fluxes with) is proved against its decision table "
         "(None -> model tolerance; below tolerance -> ValueError; otherwise the given value); the FVA step is proved to optimise "
         "exactly the requested reaction's net flux and to leave the objective as found (C05 kernel); find_blocked_reactions is "
@@ -22,10 +24,40 @@ def run(rep):
         "and get_solution are abstract calls: that FVA's ranges are TRUE is C05. The FASTCC iteration (correctness is the paper's "
         "theorem, not a per-function contract) and GLPK are NOT proved: bounded driver (returned id list / model against exact FVA "
         "at fraction 0 on generated models with dead ends, isolated cycles, blocked branches; fastcc result has no blocked reaction "
-        "and exactly the non-blocked ones with unchanged stoichiometry, bounds and rule)."),
+        "and exactly the non-blocked ones with unchanged stoichiometry, bounds and rule). "
+        "fastcc.py, for every number of listed reactions and every model size (optlang objects as syntactic terms): _find_sparse_mode "
+        "hands exactly [aux(r0), row(r0), aux(r1), row(r1), ...] to model.add_cons_vars in one call, aux(r) = Variable('auxiliary_'+id, "
+        "lb=0, ub=flux_threshold), row(r) = Constraint(forward + reverse - aux, name='constraint_'+id, lb=0); then replaces the objective "
+        "by Objective(Zero, sloppy=True) (direction max) with coefficient 1 on every auxiliary and 0 elsewhere, solves once, and returns "
+        "exactly the reactions of the MODEL with |primal(forward) - primal(reverse)| > zero_cutoff in that solution (model order, each once); "
+        "an empty list returns [] without any call on the model; OptimizationError when the solve raises or ends without primal values; "
+        "it opens no context of its own (the caller's `with model` reverts what is added). The row is what the code BUILDS, not the "
+        "documented v_i >= z_i: lemmas prove it equal to the documented row when the reaction cannot run backwards (lb >= 0), equal to "
+        "-v_i >= z_i when backward only, a relaxation of the documented row in general, and - DEVIATION lemmas, the root of the open "
+        "finding fastcc-drops-reversible - that for a reversible reaction forward = reverse = z/2 satisfies it with zero net flux (full "
+        "reward eps when eps <= 2 min(ub, -lb)), and that the flipped row -forward - reverse - z >= 0 pins forward = reverse = z = 0. "
+        "_flip_coefficients (listed reactions pairwise different, rows / auxiliaries exist): in the row of every listed reaction every "
+        "coefficient except the auxiliary's is negated, every other row is untouched (loop invariant), then EVERY objective coefficient is "
+        "negated and the direction is not touched; glue lemma over that post-condition: applying it twice is the identity. "
+        "fastcc, the skeleton (helpers applied by these contracts at their call sites; Reaction.reversibility proved to be lb < 0 < ub and "
+        "used as that term in the filter of the irreversible list): works on the ARGUMENT model and only inside "
+        "contexts - every helper call and the one model.optimize(min) (the builtin min is not a documented sense: direction stays max) "
+        "are made with exactly one own context open, the stack is as at entry between iterations, at model.copy(), on return and when "
+        "a solve raises; loop invariant: the kept list is one list that only grows, holds reactions of the model, each answered by some "
+        "_find_sparse_mode call (ghost set), the list handed to _flip_coefficients has pairwise different ids; the last-iteration branch "
+        "appends exactly the reactions labelled by fluxes.index[|fluxes| > cutoff] of the post-flip solution; final construction: "
+        "model.copy() once after the loop, remove_reactions(ids, remove_orphans=True) on THE COPY with ids = exactly the ids of the "
+        "model's reactions outside A = set(kept), the copy is returned, the argument's reaction list / bounds are as at entry. NOT "
+        "proved: that A is the non-blocked set (FASTCC theorem; fails for reversible reactions: open finding), loop termination."),
         trusted=["GLPK (assumed, monitored)", "pandas elementwise semantics (uninterpreted operations)",
                  "model.exchanges / find_boundary_types returns a list of reactions (assumed; the heuristic itself is not verified)",
-                 "flux_variability_analysis, get_solution, the objective setter as abstract calls (C05 / C04 / C03 cover them)", "FASTCC algorithm (Vlassis et al.)"])
+                 "flux_variability_analysis, get_solution, the objective setter as abstract calls (C05 / C04 / C03 cover them)", "FASTCC algorithm (Vlassis et al.)",
+                 "optlang Constraint / Objective get_linear_coefficients / set_linear_coefficients read / write exactly the given coefficients; "
+                 "`.variables` holds every variable with a non-zero coefficient; constraints.get / variables.get find the named object; a "
+                 "fresh Objective has direction max (assumed)",
+                 "Reaction.flux = primal(forward) - primal(reverse) behind check_solver_status (getter modelled in the hooks, not re-verified)",
+                 "fastcc: Model.copy / remove_reactions as recorded calls (C12 / C02); the labels of solution.fluxes are ids of reactions "
+                 "of the model (get_solution, C04); rows named after reactions with different ids are different objects (assumed)"])
 
 
 def replay(payload):
